@@ -564,7 +564,7 @@ Proof.
     rewrite fold_unks; [reflexivity | assumption | assumption].
   - rewrite <- !app_assoc.
     rewrite seg_sigs; [| reflexivity | exact SS | exact SN].
-    rewrite seg_sighash; [| reflexivity | lia].
+    rewrite seg_sighash; [| reflexivity | apply N.ltb_lt; assumption].
     rewrite seg_redeem by reflexivity. rewrite seg_wscript by reflexivity.
     rewrite seg_ders; [| reflexivity | exact DS | exact DN].
     rewrite seg_fsig by reflexivity. rewrite seg_fwit by reflexivity.
@@ -603,8 +603,8 @@ Proof. intro H. apply Forall_forall. intros x Hx. apply in_map_iff in Hx as [a [
 
 Lemma opt_kv_wf ty o : v0_wf_script o = true -> Forall v0_wf_kvp (v0_opt_kv ty o).
 Proof.
-  destruct o as [v|]; cbn; [|constructor]. unfold v0_len_ok. intro H. constructor; [|constructor].
-  unfold v0_wf_kvp, v0_MaxKeyLen, lenN. cbn [fst snd length]. lia.
+  destruct o as [v|]; cbn [v0_opt_kv v0_wf_script]; [|constructor]. unfold v0_len_ok. intro H. constructor; [|constructor].
+  unfold v0_wf_kvp, v0_MaxKeyLen, lenN in *. cbn [fst snd length]. lia.
 Qed.
 
 Lemma der_kv_wf ty d : v0_wf_der valid_pk d = true -> v0_wf_kvp (v0_der_kv ty d).
